@@ -41,18 +41,25 @@ Inductive build_stage :=
 | BBuild (s : state)            (* build_tx failed on this state *)
 | BOk (s : state).
 
-Fixpoint add_outputs_m {O} (orc : @oracle O) (l : list output) : @M O unit :=
+(* the requested outputs one after the other; a REFUSED add_output (error caught by the caller) leaves the builder as it
+   was and the scenario goes on with the same builder.  Result: which adds were accepted. *)
+Fixpoint add_outputs_m {O} (orc : @oracle O) (l : list output) : @M O (list bool) :=
   match l with
-  | [] => ret tt
-  | x :: r => bindM (add_output orc x) (fun _ => add_outputs_m orc r)
+  | [] => ret []
+  | x :: r =>
+      bindM (catch (add_output orc x)) (fun res =>
+      bindM (add_outputs_m orc r) (fun m =>
+      ret (match res with Some _ => true | None => false end :: m)))
   end.
+Definition mask_of {O} (r : @out O (list bool)) : list bool := match out_res r with Ok m => m | _ => [] end.
 
 Definition run_build (e : cenv) (cfg5 : config) (ins : list (N * value)) (req : list output) (addr extra : N)
-  : build_stage :=
+  : list bool * build_stage :=
   let orc := c07_oracle e in
   let s0 := new_state cfg5 in
   let r0 := add_inputs ins s0 tt in
   let r1 := add_outputs_m orc req (out_st r0) tt in
+  (mask_of r1,
   match out_res r1 with
   | Ok _ =>
       let r2 := add_change orc 200 addr extra (out_st r1) tt in
@@ -65,7 +72,7 @@ Definition run_build (e : cenv) (cfg5 : config) (ins : list (N * value)) (req : 
       | OutOfFuel => BChange OutOfFuel
       end
   | _ => BAddOut
-  end.
+  end).
 
 (* what the driver prints of a state *)
 Definition state_fee (s : state) : N := match get_fee_if_set s with Some f => f | None => 0 end.
@@ -93,21 +100,23 @@ Fixpoint number_from {A} (i : N) (l : list A) : list (N * A) :=
   match l with [] => [] | x :: r => (i, x) :: number_from (i + 1) r end.
 
 Definition run_build_case (cpb mvs mts : N) (pure : bool) (ins : list (N * list (list (N * N))))
-    (req : list OutputSize.output) (chg_addr : N) (chg_datum : OutputSize.datum) : build_res :=
+    (req : list OutputSize.output) (chg_addr : N) (chg_datum : OutputSize.datum) : list bool * build_res :=
   let e := scenario_env cpb mvs mts req chg_addr chg_datum in
   let cfg5 := mkConfig 500000000 2000000 pure false in
   let ins' := map (fun iv => (fst iv, mk_value (fst (snd iv)) (snd (snd iv)))) (number_from 0 ins) in
   let req' := map (fun io => mkOutput (1 + fst io) (mk_value (OutputSize.o_coin (snd io)) (OutputSize.o_ma (snd io))) (1 + fst io))
                   (number_from 0 req) in
   let chg := 1 + N.of_nat (length req) in
-  match run_build e cfg5 ins' req' chg chg with
+  let '(mask, st) := run_build e cfg5 ins' req' chg chg in
+  (mask,
+  match st with
   | BAddOut => RAddOut
   | BChange Panic => RChangePanic
   | BChange OutOfFuel => RChangeFuel
   | BChange _ => RChangeErr
   | BBuild s => RBuild (state_full_size e s)
   | BOk s => ROk (state_fee s) (state_full_size e s) (state_outputs e s)
-  end.
+  end).
 
 (* ------------------------------------------------------------------------------------------- *)
 (* `entry` scenarios: the balancing entry points (add_change_if_needed, add_inputs_from_and_change,
@@ -141,7 +150,7 @@ Definition col_txin (i : N) : Collateral.Collateral.txin := (repeat 192 32, i).
 
 Definition run_entry_case (cpb mvs mts : N) (pure : bool) (ins : list (N * list (list (N * N))))
     (req : list OutputSize.output) (chg_addr : N) (chg_datum : OutputSize.datum) (chg_sref : option OutputSize.sref)
-    (via : N) (cols : list (N * list (list (N * N)))) (pct : N) (aux : option N) (late : bool) : entry_res :=
+    (via : N) (cols : list (N * list (list (N * N)))) (pct : N) (aux : option N) (late : bool) : list bool * entry_res :=
   let addrs := map OutputSize.o_addr req ++ [chg_addr] in
   let extras := map (fun o => (OutputSize.o_datum o, OutputSize.o_sref o)) req ++ [(chg_datum, chg_sref)] in
   let e0 := mkCEnv (MinAda.mkCfg cpb mvs mts)
@@ -160,6 +169,7 @@ Definition run_entry_case (cpb mvs mts : N) (pure : bool) (ins : list (N * list 
   let e_in := with_col e0 col_ix None None in
   let r0 := add_inputs ins' (new_state cfg5) tt in
   let r1 := add_outputs_m (c07_oracle e_in) req' (out_st r0) tt in
+  (mask_of r1,
   match out_res r1 with
   | Ok _ =>
       let s1 := out_st r1 in
@@ -197,12 +207,12 @@ Definition run_entry_case (cpb mvs mts : N) (pure : bool) (ins : list (N * list 
       | OutOfFuel => EFuel
       end
   | _ => EAddOut
-  end.
+  end).
 
 (* `txsize`: inputs and outputs, set_fee(fee) by hand, no balancing; then every build entry point.
    Returns (full size, admitted?, build ok, build_tx ok, build_tx_unsafe ok). *)
 Definition run_txsize_case (mts : N) (ins : list (N * list (list (N * N)))) (req : list OutputSize.output) (fee : N)
-  : option (N * bool * bool * bool) :=
+  : list bool * option (N * bool * bool * bool) :=
   let e := scenario_env 4310 5000 mts req 57 OutputSize.DNone in
   let cfg5 := mkConfig 500000000 2000000 false false in
   let ins' := map (fun iv => (fst iv, mk_value (fst (snd iv)) (snd (snd iv)))) (number_from 0 ins) in
@@ -210,6 +220,7 @@ Definition run_txsize_case (mts : N) (ins : list (N * list (list (N * N)))) (req
                   (number_from 0 req) in
   let r0 := add_inputs ins' (new_state cfg5) tt in
   let r1 := add_outputs_m (c07_oracle e) req' (out_st r0) tt in
+  (mask_of r1,
   match out_res r1 with
   | Ok _ =>
       let s := set_s_fee_request (FeeExactly fee) (out_st r1) in
@@ -218,4 +229,4 @@ Definition run_txsize_case (mts : N) (ins : list (N * list (list (N * N)))) (req
       let t_ok := match out_res (build_tx (c07_oracle e) s tt) with Ok _ => true | _ => false end in
       Some (full, b_ok, t_ok, b_ok)
   | _ => None
-  end.
+  end).
